@@ -8,9 +8,11 @@
 //! Miri sub-mode (pure Rust parts (b)/(c) only, no blst in the dependency graph):
 //!   cd /verif/harness && MIRIFLAGS="-Zmiri-disable-isolation" CARGO_TARGET_DIR=/verif/harness/target-merkle-miri \
 //!     cargo +nightly miri run --offline -p mon-merkle --no-default-features -- C09 --miri-workload
+#![cfg_attr(not(feature = "full"), allow(dead_code))]
 mod mk;
 mod mkmap;
 mod refs;
+mod viol;
 #[cfg(feature = "full")]
 mod setproof;
 #[cfg(feature = "full")]
@@ -433,11 +435,18 @@ fn main() {
         tasks.push(Task::SetProof { shard });
     }
 
+    // development aid: VERIF_ONLY=<substring of the task's debug form> runs a subset (the run is
+    // then reported inconclusive because the exhaustive subspace is incomplete)
+    if let Ok(f) = std::env::var("VERIF_ONLY") {
+        tasks.retain(|t| format!("{t:?}").contains(&f));
+    }
+
     #[cfg(feature = "full")]
     let pool = stm::key_pool(&mon, 40);
 
     vcore::run_shards(&mut mon, tasks.len() as u64, threads, |i, m| {
         m.max_samples = 2;
+        let t0 = std::time::Instant::now();
         match &tasks[i as usize] {
             #[cfg(feature = "full")]
             Task::StmExhaustive { n, chunk, nchunks } => run_stm_exhaustive(&pool, *n, *chunk, *nchunks, sz.pairs, m),
@@ -449,6 +458,9 @@ fn main() {
             Task::MapSampled { shard } => run_map_sampled(*shard, &sz, m),
             #[cfg(feature = "full")]
             Task::SetProof { shard } => run_setproof(*shard, &sz, m),
+        }
+        if std::env::var("VERIF_DEBUG").is_ok() {
+            eprintln!("task {i} {:?}: {:.1}s, {} evaluations", tasks[i as usize], t0.elapsed().as_secs_f64(), m.evaluations);
         }
     });
 
